@@ -985,6 +985,16 @@ def case_sdf(rng, ctx):
     got_names = list(sd2.keys())
     if got_names != list(model.keys()) or len(sd2) != len(model):
         ctx.fail("record_names_order", "record names/order read back %r, written %r" % (got_names, list(model.keys())))
+    # a file that is parsed and written again without looking at its records (they are still held as text) loses nothing
+    ctx.op("SDFile.deserialize+serialize untouched")
+    try:
+        text2 = mol.SDFile.deserialize(text).serialize()
+    except (SerializationError, DeserializationError) as e:
+        ctx.exc(e)
+        ctx.fail("record_names_order", "an untouched SD file cannot be written again: %s" % e)
+    if text2 != text:
+        ctx.fail("record_names_order", "an SD file parsed and serialised again without being touched differs from the text it was parsed from "
+                 "(%d -> %d characters, %d -> %d record delimiters)" % (len(text), len(text2), text.count("$$$$"), text2.count("$$$$")))
     for nm, mm in model.items():
         what = "record %r" % nm
         try:
